@@ -17,6 +17,11 @@ file_props = {}
 for p in props:
     for f in p["anchors"]["files"]:
         if f.startswith("src/") and f.endswith(".rs"): file_props.setdefault(f, []).append(p["id"])
+# files that no property anchors but whose code the checks now exercise (DESIGN §13c)
+for f, ps in {"src/report.rs": ["C02", "C03"], "src/checker/visitor.rs": ["C03", "C01"], "src/actor/actor_test_util.rs": [],
+              "src/checker/representative.rs": ["C10"], "src/checker/rewrite.rs": ["C10"], "src/semantics.rs": ["C18", "C08"],
+              "src/semantics/consistency_tester.rs": ["C08", "C14"]}.items():
+    file_props.setdefault(f, ps)
 files = arg("--files"); files = files.split(",") if files else sorted(file_props)
 rng = random.Random(seed)
 MUTS = [
